@@ -26,7 +26,10 @@ impl FangAction for MarkFang {
 fn digest(b: &[u8]) -> String { let mut h: u64 = 1469598103934665603; for x in b { h ^= *x as u64; h = h.wrapping_mul(1099511628211) } format!("{}:{:016x}", b.len(), h) }
 
 async fn echo(k: String, req: &Request) -> String {
-    let hs = vec![format!("{:?}", req.headers)];
+    // the header set as a whole, and single headers through the string API (any case) and the typed accessors
+    let one = |x: Option<&str>| x.map(|v| v.len().to_string() + ":" + &v[..v.len().min(12)]).unwrap_or("-".into());
+    let hs = vec![format!("{:?}", req.headers), one(req.headers.get("host")), one(req.headers.get("Host")), one(req.headers.Host()), one(req.headers.get("USER-AGENT")), one(req.headers.UserAgent()),
+                  one(req.headers.get("accept")), one(req.headers.get("x-req")), one(req.headers.get("X-Pad")), one(req.headers.get("content-length")), one(req.headers.get("Connection"))];
     // typed reading of the query as well: the iterator skips parts without `=`
     let qt = match req.query.parse::<std::collections::BTreeMap<String, String>>() { Ok(m) => format!("{m:?}"), Err(_) => "err".into() };
     format!("k={k};m={};path={};q={:?};qt={qt};h=[{}];p={};ctx={}", req.method, req.path.str(), req.query.iter().collect::<Vec<_>>(), hs.join("|"),
@@ -48,16 +51,22 @@ pub fn concretise(k: usize, r: &Value, seed: u64) -> Conc {
     let query = if (k as u64 + seed) % 3 == 0 { String::new() } else { format!("?s={seed}&k{k}=v{k}") };
     // a request with a payload is a POST, a PUT or -- legal, if unusual -- a GET
     let method = if b == 0 { "GET" } else { ["GET", "POST", "PUT", "POST"][((k as u64 + seed) % 4) as usize] };
-    let mut head = format!("{method} /r/{k}{query} HTTP/1.1\r\nHost: h{k}.example\r\nX-Req: {k}\r\n");
+    // every fourth request carries standard headers only (no custom header at all: the padding moves into User-Agent), unless a flag below adds one
+    let plain = (k as u64 + seed) % 4 == 1 && !bad;
+    // empty lines in front of the request line (RFC 9112 2.2 lets a server ignore them; whatever it does must not depend on the reads)
+    let lead = if r["lead"].as_bool().unwrap_or(false) { "\r\n\r\n" } else { "" };
+    let mut head = if plain { format!("{lead}{method} /r/{k}{query} HTTP/1.1\r\nHost: h{k}.example\r\nAccept: a{k}\r\n") } else { format!("{lead}{method} /r/{k}{query} HTTP/1.1\r\nHost: h{k}.example\r\nX-Req: {k}\r\n") };
     // a request the parser refuses after it has accepted some header lines (which must not leak into the next request)
     if bad { head.push_str(&format!("Authorization: Bearer secret-of-{k}\r\nX-Mark: bad{k}\r\nX-Leak: leak{k}\r\nCookie: sid=bad{k}\r\nthis line has no colon\r\n")) }
     if r["many"].as_bool().unwrap_or(false) && !bad { for j in 0..5 { head.push_str(&format!("X-M{j}: v{k}-{j}\r\n")) } }
     if r["mark"].as_bool().unwrap_or(false) { head.push_str(&format!("X-Mark: m{k}\r\n")) }
-    if r["close"].as_bool().unwrap_or(false) { head.push_str("Connection: close\r\n") }
+    // (connection options are case-insensitive, RFC 9110 7.6.1)
+    if r["close"].as_bool().unwrap_or(false) { head.push_str(["Connection: close\r\n", "Connection: Close\r\n", "connection: CLOSE\r\n"][((k as u64 + seed / 3) % 3) as usize]) }
     if b > 0 { head.push_str(&format!("Content-Length: {}\r\n", b * CELL)) }
-    let fixed = head.len() + "X-Pad: ".len() + 2 + 2;
+    let padname = if plain { "User-Agent" } else { "X-Pad" };
+    let fixed = head.len() + padname.len() + 2 + 2 + 2;
     let pad = (h * CELL).checked_sub(fixed).expect("head does not fit its cells");
-    head.push_str(&format!("X-Pad: {}\r\n\r\n", "p".repeat(pad)));
+    head.push_str(&format!("{padname}: {}\r\n\r\n", "p".repeat(pad)));
     assert_eq!(head.len(), h * CELL);
     let mut body: Vec<u8> = (0..b * CELL).map(|j| ((j as u64 * 13 + k as u64 * 31 + seed) % 250 + 1) as u8).collect();
     if b > 0 && r["z"].as_bool().unwrap_or(false) {
@@ -133,6 +142,14 @@ pub fn segments(stream: &[u8], cuts: &[Value], boundaries: &[usize], hb: &[usize
             let j = [((seed as usize + n * 7) % 41) as isize - 20, 127, -127, 1, -1][(seed as usize / 3 + n) % 5];
             (p as isize + j) as usize }
     }).collect();
+    // nicks: behind a cut that falls exactly between two requests (and, sometimes, at the very beginning), one more cut a few bytes into the
+    // next request -- inside its method token, its request line or the empty lines in front of it
+    let ends: Vec<usize> = boundaries.iter().skip(1).step_by(2).cloned().collect();
+    let ds = [1usize, 2, 3, 4, 5, 7, 16];
+    let mut nicks: Vec<usize> = pos.iter().enumerate().filter(|(n, p)| ends.contains(p) && (seed as usize + n) % 2 == 1).map(|(n, p)| p + ds[(seed as usize / 2 + n) % 7]).collect();
+    if seed % 4 == 3 { nicks.push(ds[(seed as usize / 4) % 7]) }
+    pos.extend(nicks.into_iter().filter(|p| *p < stream.len()));
+    pos.sort(); pos.dedup();
     pos.push(stream.len());
     let mut out = vec![]; let mut from = 0;
     for p in pos { if p > from { out.push(stream[from..p].to_vec()); from = p } }
@@ -167,7 +184,7 @@ fn run_mem(router: &v::VRouter, segs: Vec<Vec<u8>>) -> (Vec<u8>, &'static str, b
             match vr.read_following(&mut rd, carried).await {
                 Ok(Some(following)) => {
                     unread = following;
-                    let close = matches!(vr.get().headers.Connection(), Some("close" | "Close"));
+                    let close = vr.get().headers.Connection().is_some_and(|c| c.eq_ignore_ascii_case("close"));
                     let res = vr.handle(router).await;
                     v::send(res, &mut out).await;
                     if close { end = "close-header"; break }
@@ -260,7 +277,12 @@ pub fn run(scn: &Value) -> Value {
     let mut acc = 0; let wait_after: Vec<usize> = segs.iter().map(|sg| { acc += sg.len(); if ends.contains(&acc) { ends.iter().filter(|e| **e <= acc).count() } else { 0 } }).collect();
     let (out2, end2, evs) = run_tcp(&router, segs.clone(), wait_after);
     let tcp = json!({"resp": classify(&out2, &concs, &fresh_sock), "end": end2, "unread": false});
-    json!({"kind": "conn", "mem": mem, "tcp": tcp, "events": evs, "nsegs": segs.len() as i64})
+    // the reference for input the grammar does not cover (empty lines in front of a request): the same bytes, every request in a read of its own
+    let reference = if reqs.iter().any(|r| r["lead"].as_bool().unwrap_or(false)) {
+        let (o, e, _) = run_mem(&router, concs.iter().map(|c| c.bytes.clone()).collect());
+        json!({"resp": classify(&o, &concs, &fresh), "end": e})
+    } else { json!({"resp": [], "end": "none"}) };
+    json!({"kind": "conn", "mem": mem, "tcp": tcp, "ref": reference, "events": evs, "nsegs": segs.len() as i64})
 }
 
 /// random histories: 3-12 requests, random cuts anywhere (cell units), sizes around the buffer
@@ -270,6 +292,8 @@ pub fn gen(rng: &mut Rng, idx: usize) -> Value {
     let reqs: Vec<Value> = (0..n).map(|k| json!({"h": rng.range(1, 3), "b": if rng.chance(1, 2) { 0 } else { rng.range(1, 6) }, "close": k + 1 == n && rng.chance(1, 3),
         "z": rng.chance(1, 3), "mark": rng.chance(1, 3), "many": rng.chance(1, 3), "bad": false})).collect();
     let reqs: Vec<Value> = reqs.into_iter().enumerate().map(|(k, mut r)| { if k + 1 < n && rng.chance(1, 6) { r["bad"] = json!(true); r["b"] = json!(0); r["close"] = json!(false); r["h"] = json!(rng.range(2, 3)) } r }).collect();
+    let anybad = reqs.iter().any(|r| r["bad"].as_bool().unwrap_or(false));
+    let reqs: Vec<Value> = if !c05 && !anybad && rng.chance(1, 4) { let j = rng.below(n); reqs.into_iter().enumerate().map(|(k, mut r)| { if k == j { r["lead"] = json!(true) } r }).collect() } else { reqs };
     let mut ends = vec![]; let mut tot = 0; for r in &reqs { tot += (i(&r["h"]) + i(&r["b"])) as usize; ends.push(tot) }
     let mut cuts: Vec<usize> = if c05 { ends[..ends.len() - 1].to_vec() } else {
         let mut cs: Vec<usize> = (1..tot).filter(|_| rng.chance(1, 3)).collect();
